@@ -97,6 +97,22 @@ func H14_db() {
 	vsymAssert(bad == "", "no key sequence is a proper prefix of another")
 }
 
+func h14Env2() {
+	// the environment changes between two lookups
+	switch vsymChoice("colorterm2", 3) {
+	case 1:
+		vsymSetenv("COLORTERM", "truecolor")
+	case 2:
+		vsymSetenv("COLORTERM", "")
+	}
+	switch vsymChoice("tcell_truecolor2", 3) {
+	case 1:
+		vsymSetenv("TCELL_TRUECOLOR", "disable")
+	case 2:
+		vsymSetenv("TCELL_TRUECOLOR", "")
+	}
+}
+
 func h14Env() {
 	switch vsymChoice("colorterm", 5) {
 	case 1:
@@ -139,16 +155,27 @@ func H14_lookup() {
 	vsymNote("first", n1)
 	vsymNote("second", n2)
 	backup := terminfo.VerifBackup()
-	// on a fresh database
+	names := terminfo.VerifNames()
+	// after another lookup made under the first environment ...
+	_, _ = terminfo.LookupTerminfo(n1)
+	// ... the environment may change ...
+	h14Env2()
+	g, gerr := terminfo.LookupTerminfo(n2)
+	var after terminfo.Terminfo
+	if g != nil {
+		after = *g
+	}
+	// ... and the answer must be what a fresh database gives under the current environment
+	terminfo.VerifRestore(backup)
+	terminfo.VerifForget(names)
 	f, ferr := terminfo.LookupTerminfo(n2)
 	var fresh terminfo.Terminfo
 	if f != nil {
 		fresh = *f
 	}
-	terminfo.VerifRestore(backup)
-	// after another lookup
-	_, _ = terminfo.LookupTerminfo(n1)
-	g, gerr := terminfo.LookupTerminfo(n2)
+	if g != nil {
+		g = &after
+	}
 	vsymAssert((ferr == nil) == (gerr == nil), "whether a name resolves does not depend on earlier lookups")
 	if f != nil && g != nil {
 		vsymAssert(vsymStructEq(&fresh, g), "the entry a lookup returns does not depend on earlier lookups")
